@@ -114,6 +114,7 @@ func c13Cases(env vk.Env) []vk.Case {
 		cs = append(cs, vk.Case{ID: fmt.Sprintf("multiply/%d", i), Run: func(t *vk.T) { c13Multiply(t, i, env.Pick(30, 50)) }})
 		cs = append(cs, vk.Case{ID: fmt.Sprintf("faults-online/%d", i), Run: func(t *vk.T) { c13FaultsOnline(t, i, env.Pick(60, 200)) }})
 		cs = append(cs, vk.Case{ID: fmt.Sprintf("faults-setup/%d", i), Run: func(t *vk.T) { c13FaultsSetup(t, i, env.Pick(10, 40)) }})
+		cs = append(cs, vk.Case{ID: fmt.Sprintf("concurrent/%d", i), Run: func(t *vk.T) { c13Concurrent(t, i) }})
 	}
 	return cs
 }
@@ -276,6 +277,69 @@ func c13Layers(t *vk.T, i int) {
 	}
 	if i == 0 {
 		t.Sample(map[string]any{"layers": "random/correlated/extended/additive", "choice_classes": c13Classes, "batches_bits": []int{128, 88, 8, 320}})
+	}
+}
+
+// c13Concurrent: several honest multiplications overlapping in time in one process (one setup reused under distinct
+// context hashes, and independent setups): every one must succeed with a correct product.
+func c13Concurrent(t *vk.T, i int) {
+	r := t.Rng
+	ss, rs, err := otSetup(r)
+	if err != nil {
+		t.Violation("multiply|setup-error", "%v", err)
+		return
+	}
+	type res struct {
+		ok  bool
+		err error
+		pnk string
+	}
+	workers, per := 8, 5
+	out := make([]res, workers*per)
+	done := make(chan struct{})
+	seeds := make([]uint64, workers)
+	for w := range seeds {
+		seeds[w] = r.U64()
+	}
+	for w := 0; w < workers; w++ {
+		go func(w int) {
+			defer func() { done <- struct{}{} }()
+			rr := vk.NewRand(seeds[w])
+			mySS, myRS := ss, rs
+			if w%2 == 1 { // odd workers use their own setup
+				var e error
+				if mySS, myRS, e = otSetup(rr); e != nil {
+					out[w*per] = res{err: e}
+					return
+				}
+			}
+			for k := 0; k < per; k++ {
+				ctx := hash.New(hash.BytesWithDomain{TheDomain: "conc", Bytes: []byte{byte(w), byte(k), byte(i)}})
+				var o res
+				if p, fr, txt := vk.Guard(func() { o.ok, o.err = runMul(ctx, mySS, myRS, randScalarBig(rr), randScalarBig(rr), nil, nil) }); p {
+					o.pnk = fr + ": " + txt
+				}
+				out[w*per+k] = o
+			}
+		}(w)
+	}
+	for w := 0; w < workers; w++ {
+		<-done
+	}
+	for _, o := range out {
+		t.Obs("evaluations", 1)
+		switch {
+		case o.pnk != "":
+			t.Violation("multiply|concurrent-honest-panic", "an honest multiplication overlapping with others panicked: %s", o.pnk)
+		case o.err != nil:
+			t.Violation("multiply|concurrent-honest-error", "an honest multiplication overlapping with others failed: %v", o.err)
+		case !o.ok:
+			t.Violation("multiply|concurrent-wrong-product", "an honest multiplication overlapping with others returned shares that do not add up to the product")
+		}
+	}
+	t.Distinct("multiply|concurrent|%d-goroutines|shared-and-own-setups|%d", workers, i%4)
+	if i == 0 {
+		t.Sample(map[string]any{"layer": "multiply (overlapping sessions)", "goroutines": workers, "multiplications_each": per})
 	}
 }
 
